@@ -58,6 +58,16 @@ func buildCorpus(g *model.Gen, perKind int) []corpusItem {
 				}
 			}
 		}
+		{
+			pl := &shapes.Plain{N: i, S: "s", B: true, A: [2]byte{1, 2}, F: 1.5, M: map[string]int{"a": 1}, L: []int{1, 2}, I: "x", U: 7}
+			pl.Inner.Y = model.SP("y")
+			if b, err := encoding.SerializeStructToCBOR(extprof.EM, pl); err == nil {
+				out = append(out, corpusItem{"cbor", "shape-Plain", b})
+			}
+			if b, err := encoding.SerializeStructToJSON(pl); err == nil {
+				out = append(out, corpusItem{"json", "shape-Plain", b})
+			}
+		}
 		for _, sn := range shapes.Names {
 			v := shapes.New(sn)
 			shapes.Fill(g.R, v, func(_ int, f shapes.FieldInfo) bool { return !f.Optional || g.R.Intn(2) == 0 })
@@ -241,6 +251,20 @@ func runC05(c *mon.Ctx) {
 			}
 		}
 	}
+	for key := int64(-110); key <= 610; key++ {
+		if key > 40 && key < 95 || key > 110 && key < 595 {
+			continue
+		}
+		for _, v := range []*refcbor.Node{refcbor.Null(), refcbor.Undef()} {
+			h.run("cbor", "shape-key:=null", refcbor.Encode(refcbor.MapOf(refcbor.I(key), v)))
+			h.run("cbor", "shape-key:=null", refcbor.Encode(refcbor.MapOf(refcbor.I(2), refcbor.Tstr("b"), refcbor.I(-4), refcbor.U(1), refcbor.I(key), v, refcbor.I(101), refcbor.Tstr("y"), refcbor.I(11), refcbor.U(1))))
+		}
+	}
+	for _, name := range []string{"n", "s", "b", "a", "f", "m", "l", "i", "u", "t", "p", "x", "y", "z", "c", "d", "e", "q", "r"} {
+		h.run("json", "shape-member:=null", []byte(`{"`+name+`":null}`))
+		h.run("json", "shape-member:=null", []byte(`{"b":"x","d":1,"y":"y","q":1,"r":"r","u":1,"n":1,"`+name+`":null}`))
+	}
+	c.Sig("shape-null-members")
 	for _, s := range []string{`{"psa-profile":"PSA_IOT_PROFILE_1","eat-profile":"http://arm.com/psa/2.0.0"}`, `{"eat-profile":"http://arm.com/psa/2.0.0","psa-profile":"PSA_IOT_PROFILE_1","psa-client-id":1}`,
 		`{"psa-profile":null,"eat-profile":"http://example.com/unregistered"}`, `{"psa-profile":"PSA_IOT_PROFILE_1","eat-profile":"http://example.com/psa-ext/2.0.0"}`,
 		``, `null`, `{}`, `[]`, `{"a":1,"a":2}`, `{"b":"x","b":"y","d":1}`, `{"y":"1","y":"2"}`, `{"psa-nonce":null}`, `{"psa-software-components":[null]}`,
